@@ -861,7 +861,7 @@ package leader
 //@   on recv ticker set marshalFailed = false
 //@   on call KeyValue.Update set refreshIssued = true
 //@   on call json.Marshal as m set marshalFailed = m.result1 != nil
-//@   on backedge 0 assert C03+C07+C12.every_tick_of_a_healthy_leader_refreshes: ticked && leaderThisTick && !unhealthyThisTick && !marshalFailed ==> refreshIssued
+//@   on backedge 0 assert C02+C03+C07+C12.every_tick_of_a_leader_refreshes: ticked && leaderThisTick && !marshalFailed ==> refreshIssued
 //@   ghost checkCtx Int = 0
 //@   ghost checkCtxFresh Bool = false
 //@   on recv ticker set checkCtxFresh = false
@@ -872,7 +872,6 @@ package leader
 //@   ghost unhealthyThisTick Bool = false
 //@   on recv ticker set unhealthyThisTick = false
 //@   on ret HealthChecker.Check as c set unhealthyThisTick = !c.result
-//@   on call KeyValue.Update assert C12.unhealthy_tick_skips_refresh: !unhealthyThisTick
 //@   on ret HealthChecker.Check as c set streak = c.result ? 0 : streak + 1
 //@   on call handleHealthCheckFailure assert C12.demote_exactly_at_threshold: streak == MaxHealth(e.cfg)
 //@   on call handleHealthCheckFailure set health_exhausted = streak >= MaxHealth(e.cfg)
